@@ -82,7 +82,9 @@ CHECKS = {
          "reachable state under any inputs incl. resets (stage_conservation, tags_in_order, no_dup_no_loss, drop_unit_exact), and the refinement to the ISA: refinement_invariant, "
          "arch_state_refines and commits_are_isa (the register file and proc2mngr stream observed after each commit are the ISA's after 1..k instructions), branch_decision_is_isa; the "
          "environment assumption is an explicit predicate shown satisfiable (env_assumption_satisfiable, runs_satisfiable). The model is tied to the real ProcRTL by cycle-exact comparison of "
-         "17 outputs and a 175-entry state digest on every cycle of every run (from power-on, through resets in mid-run). PARTIAL: ProcFL, ProcCL and the FL/CL/RTL adapters (sources, sinks, "
+         "17 outputs and a 175-entry state digest on every cycle of every run (from power-on, through resets in mid-run), AND by a translator: tools/py2lean_pipe.py regenerates "
+         "Gen/PipeGen.lean (168 definitions) from the update blocks, constants, instances and connections of ProcCtrlRTL / ProcDpathRTL / MiscRTL on every run and Props/C20pGen.lean proves 129 "
+         "generated = model obligations (every control equation, register update, the decode table, ALU, immediate generator, mux orders, drop unit, wiring). PARTIAL: ProcFL, ProcCL and the FL/CL/RTL adapters (sources, sinks, "
          "test memory) are related to the ISA by differential execution of random terminating programs (hazards, load-use, store-load, branches, csr) under random memory latency, stall and "
          "src/sink delays only; the pipeline theorems are safety statements (prefix of the ISA execution), termination / liveness is observed, not proved.",
          "Proof covers the ISA model, encoding, checksum algorithms and the five-stage pipeline (control invariants + refinement to the ISA for all programs and timings, under the stated "
@@ -189,7 +191,11 @@ CHECKS = {
          "(implicit_iff_related), i.e. a pair is added iff a non-ff writer and a reader share a bit (implicit_iff_bits), that explicit pairs are honoured, and that every order "
          "topological for the result runs each writer of a bit before each reader unless explicitly inverted (schedule_respects_bits); tied to the code by comparing the model's "
          "final pairs and constraint_objs with _dag.all_constraints / constraint_objs exactly on five design families, the model input being extracted from the real metadata. "
-         "PARTIAL: OpenLoopCLPass is not modelled.",
+         "The read / write set the constraints start from is inside the model as well: Model/CallGraph.lean models the expansion of @s.func helper calls in ComponentLevel2._collect_vars "
+         "and Props/C02c.lean proves for every call graph that a block's expanded set is exactly its own accesses plus those of every function reachable from its calls (expand_exact), that "
+         "the expansion raises iff a reachable function lies on a call cycle, and that the accumulating loop gives every block the same entry in every order and from any earlier state "
+         "(fold_entry_eq, fold_perm, expand_local); tied to the code by reading the per-component tables before and the expanded sets after _collect_vars, with a direct oracle from an own "
+         "AST walk and from sys.setprofile on the running blocks. PARTIAL: OpenLoopCLPass is not modelled.",
          "Trusted: as C01; explicit U<U constraints are handled by the harness oracle (python), not by the Lean model; blocking FL interfaces / greenlets and OpenLoopCLPass outside the model.",
          "Lean 4 proof (verified schedule checker, Kahn with arbitrary oracle) + differential correspondence check", "DESIGN.md §5 C02"),
  'C07': ("Lean 4 theorems over the double-buffer model: the shadow buffer after the ff phase is the same for every permutation of the update_ff blocks (ff_perm, "
